@@ -912,6 +912,9 @@ func TestVerifMempool(t *testing.T) {
 	}
 	sort.Strings(accs)
 	var envs [][]*mpEnv
+	if len(in.Graphs) == 0 {
+		nw = 0
+	}
 	for w := 0; w < nw; w++ {
 		var es []*mpEnv
 		for _, b := range in.Backends {
